@@ -189,3 +189,64 @@ def run_parallel(R, tu, rule, todo, every=False, jobs=12):
             R.finding(rule, tu.func(fname), "%s decoded with a symbolic count" % fname, "%s%d (start, count) points differ; first: %s %+d %s gives "
                       "%s, the calendar says %s" % (">= " if len(lst) >= 400 else "", len(lst), day, t, UN[unit], got, exp))
     return n
+
+
+def run_daynumbers(R, tu, rule):
+    """day numbers (daisy, Lilian, Matlab): dt_dadd_d / dt_dadd_w through the dispatch, the count symbolic; the result is the number
+    that many days on, and it still converts to the date that many days on"""
+    E = {k: tu.enum_value(k) for k in ("DT_YMD", "DT_DAISY", "DT_LDN", "DT_MDN")}
+    for f in ("dt_dadd_d", "dt_dadd_w", "dt_dconv"):
+        if tu.func(f) is None or getattr(tu.func(f), "body", None) is None:
+            raise AnalysisBroken("%s: %s vanished" % (rule, f))
+        R.saw(tu.func(f))
+    tabs = {}
+
+    def mk(name):
+        fo = fold.Folder(tu.func(name), calls={}, inline=True, max_steps=600000)
+        fo._tabs = tabs
+        return fo
+    n = 0
+    try:
+        for tag, mem in (("DT_DAISY", "daisy"), ("DT_LDN", "ldn"), ("DT_MDN", "mdn")):
+            bad = []
+            for d in (datetime.date(1917, 1, 1), datetime.date(1944, 2, 29), datetime.date(1969, 12, 31), datetime.date(2012, 12, 31),
+                      datetime.date(2400, 2, 29), datetime.date(3899, 6, 15)):
+                src = mk("dt_dconv").run([E[tag], {"typ": E["DT_YMD"], "ymd.y": d.year, "ymd.m": d.month, "ymd.d": d.day}])
+                v0 = src.get(mem) if isinstance(src, dict) else None
+                if not isinstance(v0, int) or v0 <= 0:
+                    raise AnalysisBroken("%s: %s of %s not decoded" % (rule, tag, d))
+                for fname, mult, W in (("dt_dadd_d", 1, 400), ("dt_dadd_w", 7, 60)):
+                    work = [(-W, W)] + [(c, c) for c in (-36525 // mult, 36525 // mult, 5000)]
+                    while work:
+                        a, b = work.pop()
+                        if a > b:
+                            continue
+                        try:
+                            r = mk(fname).run([dict(src), Aff(0, 1, (a, b)) if a < b else a])
+                        except fold.Split as sp:
+                            work.append((a, sp.args[0] - 1))
+                            work.append((sp.args[0], b))
+                            continue
+                        for t in sorted({a, b, (a + b) // 2, 0 if a <= 0 <= b else a, -1 if a <= -1 <= b else a, 1 if a <= 1 <= b else b}):
+                            n += 1
+                            got = _val(r.get(mem), t) if isinstance(r, dict) else None
+                            if got != v0 + mult * t:
+                                bad.append((d.isoformat(), fname, t, got, v0 + mult * t))
+                        # and back to a date (at the ends of the piece)
+                        for t in {a, b}:
+                            rr = {k: _val(v, t) for k, v in r.items()}
+                            back = mk("dt_dconv").run([E["DT_YMD"], rr])
+                            e = d + datetime.timedelta(days=mult * t)
+                            n += 1
+                            if (back.get("ymd.y"), back.get("ymd.m"), back.get("ymd.d")) != (e.year, e.month, e.day):
+                                bad.append((d.isoformat(), fname + " then to a date", t, (back.get("ymd.y"), back.get("ymd.m"), back.get("ymd.d")), e.isoformat()))
+            if bad:
+                day, fname, t, got, exp = bad[0]
+                R.finding(rule, tu.func("dt_dadd_d"), "day numbers held as %s" % tag, "%d probes differ; first: %s as %s, %s with %+d gives %s, "
+                          "%s is that many days on" % (len(bad), day, tag, fname, t, got, exp))
+            else:
+                R.ob(rule, "dt_dadd_d / dt_dadd_w on %s day numbers: every piece of +-400 days / +-60 weeks (and a century either way) is the "
+                     "number that many days on, and converts to the date that many days on" % tag, True)
+    except NotConst as e:
+        raise AnalysisBroken("%s: the day-number adders left the foldable fragment (%s)" % (rule, e))
+    return n
